@@ -120,7 +120,25 @@ class _Prog(nn.Module):
             vals[op['out']] = y
         if self._record is not None:
             self._record.update(vals)
-        return vals[self._prog['out']]
+        y = vals[self._prog['out']]
+        # the network may hand its output back inside a one-element container
+        oc = self._prog.get('out_container')
+        if oc == 'tuple1':
+            return (y,)
+        if oc == 'list1':
+            return [y]
+        if oc == 'dict1':
+            return {'logits': y}
+        return y
+
+
+def out_tensor(y):
+    """the output tensor of a program, whatever one-element container it comes in"""
+    if isinstance(y, dict):
+        return next(iter(y.values()))
+    if isinstance(y, (tuple, list)):
+        return y[0]
+    return y
 
 
 def _user_pit_layer(layer, op):
@@ -595,6 +613,13 @@ class Builder:
         if rng.random() < 0.5:
             o = self.lin(o)
             o = self.maybe_bn_act(o, 0.4, 0.8)
+        if rng.random() < 0.1:
+            # two classifiers whose outputs are concatenated into the network output: both are
+            # tied to the output (their widths are fixed by it)
+            o1 = self.lin(o, fout=rng.randint(1, 4))
+            o2 = self.lin(o, fout=rng.randint(1, 4))
+            self.features.add('cat-head')
+            return self.cat([o1, o2], dim=1)
         o = self.lin(o, fout=rng.randint(1, 6))
         return o
 
